@@ -13,3 +13,4 @@ import MicroHttp.Props.Tables
 #print axioms MicroHttp.Tables.router_dispatch_key
 #print axioms MicroHttp.Tables.router_handle
 #print axioms MicroHttp.Tables.uri_abs_path
+#print axioms MicroHttp.Tables.routes_fields
